@@ -468,7 +468,16 @@ pub fn worker<P: Prop>(args: &WorkerArgs) -> i32 {
             };
             let case = tree.current();
             let mut obs = Obs::default();
-            let outcome = run_case::<P>(&case, &mut obs);
+            let mut outcome = run_case::<P>(&case, &mut obs);
+            // a finding the check skipped over must be a listed one
+            if let CaseOutcome::Pass = outcome {
+                if let Some(sig) = obs.known_hits.iter().find(|h| !known.iter().any(|k| k.signature == **h)) {
+                    outcome = CaseOutcome::Fail(Failure {
+                        signature: sig.clone(),
+                        detail: "met a finding that known_findings.json does not list".into(),
+                    });
+                }
+            }
             progress.fetch_add(1, Ordering::Relaxed);
             res.evaluations += 1;
             *res.per_profile.entry(p.name.to_string()).or_insert(0) += 1;
@@ -666,7 +675,7 @@ fn wait_timeout(child: &mut std::process::Child, limit: Duration) -> Option<std:
     }
 }
 
-fn gen_case_json<P: Prop>(seed: u64, profile: &str, index: u64) -> Value {
+pub fn gen_case_json<P: Prop>(seed: u64, profile: &str, index: u64) -> Value {
     let strat = P::strategy(profile);
     let mut runner = runner_for(seed, P::ID, profile, index);
     match strat.new_tree(&mut runner) {
@@ -691,6 +700,7 @@ pub fn driver<P: Prop>(args: &DriverArgs) -> i32 {
     let mut violations: Vec<(String, PathBuf)> = vec![];
     let mut known_seen: BTreeMap<String, u64> = BTreeMap::new();
     let mut inconclusive: Vec<String> = vec![];
+    let mut notes: Vec<String> = vec![];
 
     // 1. committed regression inputs first
     let mut replayed = 0u64;
@@ -727,10 +737,11 @@ pub fn driver<P: Prop>(args: &DriverArgs) -> i32 {
     let mut children = vec![];
     for k in 0..args.jobs {
         let out = dir.join(format!("shard_{k}.json"));
-        children.push((k, out.clone(), spawn_worker(id, args, k, &out, None, None, 60)));
+        children.push((k, out.clone(), spawn_worker(id, args, k, &out, None, None, 30)));
     }
     let mut total = ShardResult::default();
     let mut nontrivial: HashSet<u64> = HashSet::new();
+    let mut suspects: Vec<(u64, String, u64, std::process::Child)> = vec![];
     for (k, out, mut child) in children {
         let status = child.wait().expect("wait worker");
         let code = status.code();
@@ -767,39 +778,11 @@ pub fn driver<P: Prop>(args: &DriverArgs) -> i32 {
                 }
             }
             (Some(3), Some(r)) if r.hang.is_some() => {
-                // suspected hang: re-run the case alone with a generous limit
+                // suspected hang: confirmed below, all suspects in parallel
                 let (profile, index) = r.hang.unwrap();
                 let out2 = dir.join(format!("hang_{k}.json"));
-                let mut c2 = spawn_worker(id, args, k, &out2, Some((&profile, index)), None, 100_000);
-                match wait_timeout(&mut c2, Duration::from_secs(120)) {
-                    None => {
-                        let sig = "no-return: call did not return within 120 s".to_string();
-                        let case = gen_case_json::<P>(args.seed, &profile, index);
-                        let sig = refine_hang_signature(&sig, &case);
-                        if known.iter().any(|kf| kf.signature == sig) {
-                            *known_seen.entry(sig).or_insert(0) += 1;
-                            inconclusive.push(format!(
-                                "shard {k} stopped at a known non-returning case ({profile} {index}); remaining cases of that shard were not run"
-                            ));
-                        } else {
-                            let f = FailureRec {
-                                signature: sig.clone(),
-                                detail: format!("case {profile}:{index} did not return within 120 s when run alone"),
-                                profile,
-                                index,
-                                case: case.clone(),
-                                original_case: case,
-                                shrink_steps: 0,
-                            };
-                            println!("{}: {}", f.signature, f.detail);
-                            let p = write_replay(id, args.seed, &f);
-                            violations.push((sig, p));
-                        }
-                    }
-                    Some(_) => inconclusive.push(format!(
-                        "shard {k}: case {profile}:{index} stalled for 60 s but returned when re-run alone"
-                    )),
-                }
+                let c2 = spawn_worker(id, args, k, &out2, Some((&profile, index)), None, 100_000);
+                suspects.push((k, profile, index, c2));
             }
             (code, _) => {
                 // abnormal death (signal: stack overflow, abort): locate the case
@@ -838,6 +821,41 @@ pub fn driver<P: Prop>(args: &DriverArgs) -> i32 {
         }
     }
 
+    // suspected hangs: each case runs alone; only one that again does not return counts
+    let confirm_deadline = Instant::now() + Duration::from_secs(90);
+    for (k, profile, index, mut c2) in suspects {
+        let left = confirm_deadline.saturating_duration_since(Instant::now());
+        match wait_timeout(&mut c2, left.max(Duration::from_secs(1))) {
+            None => {
+                let sig = "no-return: call did not return within 90 s".to_string();
+                let case = gen_case_json::<P>(args.seed, &profile, index);
+                let sig = refine_hang_signature(&sig, &case);
+                if known.iter().any(|kf| kf.signature == sig) {
+                    *known_seen.entry(sig).or_insert(0) += 1;
+                    notes.push(format!(
+                        "shard {k} stopped at a known non-returning case ({profile} {index}); the remaining cases of that shard were not run"
+                    ));
+                } else {
+                    let f = FailureRec {
+                        signature: sig.clone(),
+                        detail: format!("case {profile}:{index} made no progress for 30 s and did not return within 90 s when run alone"),
+                        profile,
+                        index,
+                        case: case.clone(),
+                        original_case: case,
+                        shrink_steps: 0,
+                    };
+                    println!("{}: {}", f.signature, f.detail);
+                    let p = write_replay(id, args.seed, &f);
+                    violations.push((sig, p));
+                }
+            }
+            Some(_) => inconclusive.push(format!(
+                "shard {k}: case {profile}:{index} stalled for 30 s but returned when re-run alone"
+            )),
+        }
+    }
+
     // 3. vacuity guard
     for c in P::required_classes() {
         if total.classes.get(c).copied().unwrap_or(0) == 0 && violations.is_empty() {
@@ -867,6 +885,7 @@ pub fn driver<P: Prop>(args: &DriverArgs) -> i32 {
             "excluded_known": known_seen,
             "exhaustive": P::exhaustive(args.tier),
             "inconclusive": inconclusive,
+            "notes": notes,
         },
         "assumptions": P::assumptions(),
         "wall_s": wall,
@@ -922,4 +941,10 @@ fn refine_hang_signature(sig: &str, case: &Value) -> String {
         return format!("no-return: {f}");
     }
     sig.to_string()
+}
+
+/// `mbn-verif gen <ID> <profile> <index>`: print the generated case
+pub fn print_case<P: Prop>(args: &(u64, String, u64)) -> i32 {
+    println!("{}", serde_json::to_string_pretty(&gen_case_json::<P>(args.0, &args.1, args.2)).unwrap());
+    0
 }
